@@ -29,14 +29,17 @@ WellFormed(m) == WellFormedObs(ActiveMask(m), SubList(m))
 (* C03 : lifecycle callbacks balanced and nested.  `entered` is the set of *)
 (*       states whose enter() ran without a matching exit().               *)
 
+\* only states that define both enter() and exit() can be followed through the callbacks they receive
+Tracked(s) == Overridden(s, "enter") /\ Overridden(s, "exit")
 RECURSIVE NearestUser(_)
-NearestUser(s) == IF Par(s) = 0 THEN 0 ELSE IF HasUser(Par(s)) THEN Par(s) ELSE NearestUser(Par(s))
+NearestUser(s) == IF Par(s) = 0 THEN 0 ELSE IF Tracked(Par(s)) THEN Par(s) ELSE NearestUser(Par(s))
 
 NeedsEntered == UpdateMethods \cup ReactMethods \cup PlanMethods \cup {"query", "reenter", "exitGuard", "exit"}
 
 BalancedStep(ent, e) ==          \* [ok, ent]
     LET s == e[1]  me == e[2] IN
     IF Len(me) > 2 /\ SubSeq(me, 1, 2) = "i_" THEN [ok |-> TRUE, ent |-> ent]        \* injected handlers follow their state
+    ELSE IF ~Tracked(s) THEN [ok |-> TRUE, ent |-> ent]
     ELSE IF me = "enter" THEN
         [ok |-> s \notin ent /\ (NearestUser(s) = 0 \/ NearestUser(s) \in ent), ent |-> ent \cup {s}]
     ELSE IF me = "exit" THEN
@@ -72,9 +75,9 @@ FullyVetoed(m) ==
 (* e = [sel, rank, util, r] : what select() / rank() / utility() return    *)
 (* and the (single) generator output used for every draw of the step.      *)
 
-HeadUtil(e, s) == IF HasUser(s) THEN e.util[s] ELSE ROne
-HeadRank(e, s) == IF HasUser(s) THEN e.rank[s] ELSE 0
-HeadSel(e, s)  == IF HasUser(s) THEN e.sel[s]  ELSE 1
+HeadUtil(e, s) == IF Overridden(s, "utility") THEN e.util[s] ELSE ROne
+HeadRank(e, s) == IF Overridden(s, "rank") THEN e.rank[s] ELSE 0
+HeadSel(e, s)  == IF Overridden(s, "select") THEN e.sel[s]  ELSE 1
 
 \* leftmost maximum
 ArgMaxLeft(us) == CHOOSE i \in 1 .. Len(us) :
